@@ -136,3 +136,33 @@ def rule_gsequ_codes(mod, rep):
                       "positive info code malformed: shape=%s guard=%s immediate-return=%s" % (shape, guard, imm), s.loc, f.name)
         if set(kinds) != {"i+1", "nrow+j+1"}:
             rep.fail("GSEQU", "%s#codes" % f.name, "expected exactly the codes i+1 and nrow+j+1, found %s" % kinds, f.file, f.name)
+
+
+def rule_gsequ_clip(mod, rep):
+    rep.rule("GSEQU-CLIP", "?gsequ: each scale factor stored into r[] / c[] as a reciprocal is 1 / min(max(x, smlnum), bignum) with smlnum = ?lamch_(\"S\") and "
+             "bignum = 1/smlnum (finite, positive factors); rowcnd/colcnd use the same clipped extremes", floor=8)
+    from ..ir import expr_insts
+    for prec, f in fam(mod, "?gsequ"):
+        kr = f.pindex("r"); kc = f.pindex("c")
+        sml = [c for c in f.calls() if (c.callee or "").endswith("lamch_") and c.ops and c.ops[0][0] == "s" and c.ops[0][1][:1].upper() == "S"]
+        for which, k in (("r", kr), ("c", kc)):
+            recips = []
+            for s in f.insts():
+                if s.op == "store" and (("A", k), ("i",)) in f.addr_paths(s) and s.ops[0][0] == "v":
+                    v = f.inst[strip_casts(f, s.ops[0])[1]] if strip_casts(f, s.ops[0])[0] == "v" else None
+                    if v is not None and v.op == "fdiv" and v.ops[0][0] == "f" and v.ops[0][1] == 1.0:
+                        recips.append((s, v))
+            ok = bool(recips) and bool(sml)
+            why = []
+            for s, v in recips:
+                sl = expr_insts(f, v.ops[1], through_loads=False)
+                cmps = [x for x in sl if x.op == "fcmp"]
+                # divisor is a phi/select tree over compares against smlnum and bignum
+                has_sml = any(any(strip_casts(f, o)[0] == "v" and f.inst[strip_casts(f, o)[1]] in sml for o in x.ops) for x in cmps) or any(x in sml for x in sl)
+                has_big = any(x.op == "fdiv" and x.ops[0][0] == "f" and x.ops[0][1] == 1.0 and any(strip_casts(f, o)[0] == "v" and f.inst[strip_casts(f, o)[1]] in sml for o in x.ops[1:]) for x in sl)
+                if not has_sml:
+                    why.append("lower clip at the safe minimum missing")
+                if not has_big:
+                    why.append("upper clip at 1/safe-minimum missing")
+            rep.check(ok and not why, "GSEQU-CLIP", "%s#%s-factors" % (f.name, which), "1/min(max(x,smlnum),bignum)",
+                      "scale factors %s[] are not clipped: %s" % (which, "; ".join(sorted(set(why))) or "no reciprocal store found"), recips[0][0].loc if recips else f.file, f.name)
